@@ -228,10 +228,12 @@ enum PolicyStateKind<C> {
     },
     // mpc computation is executing in a separate tokio task
     Executing {
-        // use Notify because we notify in both directions, first from the `cancel` method
-        // to the tokio task to signal cancellation, and then the other direction if the
-        // cancel error has been sent to the output URL
+        // signals cancellation from the `cancel` method to the tokio task
         cancel: Arc<Notify>,
+        // resolves once the task has sent the cancel error to the output URL, or with an
+        // error if the task had already finished. This must not be the same `Notify`, as
+        // `cancel` could otherwise consume its own notification.
+        cancelled: oneshot::Receiver<()>,
     },
 }
 
@@ -825,8 +827,10 @@ where
                 let tmp_dir = self.tmp_dir_path.clone();
                 let cmd_tx = self.cmd_tx.clone();
                 let cancel = Arc::new(Notify::new());
+                let (cancelled_tx, cancelled) = oneshot::channel();
                 self.state_kind = PolicyStateKind::Executing {
                     cancel: Arc::clone(&cancel),
+                    cancelled,
                 };
                 let fut = async move {
                     let mpc_fut = async {
@@ -879,7 +883,7 @@ where
                             if let Err(err) = send_cancel(channel.client, policy).await {
                                 error!(%err, "unable to send cancelled error to output destination")
                             }
-                            cancel.notify_one();
+                            let _ = cancelled_tx.send(());
                         }
                     )
                 };
@@ -1117,12 +1121,12 @@ where
                 channel: Channel { client, .. },
                 ..
             } => (client, policy),
-            PolicyStateKind::Executing { cancel } => {
+            PolicyStateKind::Executing { cancel, cancelled } => {
                 // send_cancel is called in spawned mpc tokio task
                 cancel.notify_one();
-                // when this is notified, the error has been sent to output
-                // destination if available
-                cancel.notified().await;
+                // when this resolves, the error has been sent to output destination if
+                // available, or the task had already finished and delivered its result
+                let _ = cancelled.await;
                 let _ = ret.send(Ok(()));
                 return;
             }
